@@ -31,14 +31,14 @@
 //        nullable, unreachable, unproductive, attribute and payload-type shapes, the generator's own helper names as user names) + every grammar
 //        over nonterminals {S, A} and terminals {$X, $Y} whose right-hand sides have length <= 1 (930 files; length <= 2 sampled 1 in 97 in the
 //        quick tier, 1 in 3 in the thorough tier) + 300 pseudo-random files (5 000 thorough, see LALR below) + the example files of the repository. Layouts: 7. get_grammar_hash: every text of <= 4 lines
-//        (<= 5 thorough) over a 10-line alphabet, LF and CRLF, with and without final terminator. Compile check: 5 grammar shapes x 56 namings
+//        (<= 5 thorough) over an 11-line alphabet, LF and CRLF, with and without final terminator. Compile check: 5 grammar shapes x 56 namings
 //        (one internal name at a time on every user-chosen position, then all at once) + the valid grammars of the family.
 //        Validation: the family + every single renaming `identifier j := identifier i` and every first-letter case flip in 8 base files (about 2 000 files with
 //        0..4 simultaneous violations).
 //        LALR: the well-formed files of the family, of the enumeration (right-hand sides <= 1: all; <= 2: 1 in 97, thorough 1 in 3) and 12 textbook grammars
 //        (LALR-not-SLR, LR(1)-not-LALR, dangling else, expression grammars, nullable chains) + 2 500 pseudo-random files (40 000 thorough) over 2..4
 //        nonterminals and 1..3 terminals with right-hand sides of 0..3 symbols (fixed LCG seeded with VERIF_SEED); the ill-formed ones are skipped.
-//        Emitted types: the accepted files of the family + 9 payload type expressions (unit, paths, generics nested <= 3) on 3 use sites + 8 attribute
+//        Emitted types: the accepted files of the family + 9 payload type expressions (unit, paths, generics nested <= 3) on 3 use sites + 11 attribute
 //        texts (non-ASCII, the three bracket kinds nested, 300 deep, quotes) on struct / enum / terminal declarations, 0..3 per declaration.
 #[cfg(test)]
 mod __vx_leafcheck {
@@ -173,7 +173,7 @@ mod __vx_leafcheck {
             0 => ("", " ", "\n"),
             1 => ("\n", "\n", "\n"),
             2 => ("\r\n", "\r\n\t", "\r\n"),
-            3 => ("// start $X { \u{e9}\u{2200} #[a] /\n", " // terminal T { } \u{e9} \"q\" // /\n", " // last \u{2200}"),
+            3 => ("// start $X { \u{e9}\u{2200} #[a] /\n", " // terminal T { } \u{e9} \"q\" \r struct % // /\n", " // last \u{2200}"),
             4 => ("\u{3000}", "\u{2003}\u{a0}\u{85}", "\u{2028}"),
             5 => ("//\n", "//\r\n//\u{e9}\n \t", "\t//"),
             _ => ("", "", " "),
@@ -355,6 +355,11 @@ mod __vx_leafcheck {
     fn leaf_generate_layout() {
         let mut fam: Vec<String> = compact_family().iter().map(|s| s.to_string()).collect();
         fam.extend(enumerated(1, if thorough() { 1 } else { 7 }));
+        // lexical errors whose position lies inside a token (the position must move with the token)
+        for bad in ["#[derive(Debug])", "#[a(b]c)", "%", "#[x{]}]", "S%", "$A%"] {
+            fam.push(format!("start S {} struct S terminal T {{ }}", bad));
+            fam.push(format!("start S struct S ( $A ) terminal T {{ $A : ( ) }} {}", bad));
+        }
         let mut n = 0usize;
         for c in &fam {
             let t = tokens(c);
@@ -424,7 +429,7 @@ mod __vx_leafcheck {
     }
     #[test]
     fn leaf_hash_readback() {
-        const LINES: [&str; 10] = ["// @sha256 abc", "//", "// x", "", "x", " // @sha256 q", "// @sha256 ", "//@sha256 z", "/ / @sha256 w", "// @sha256 d\u{e9} f "];
+        const LINES: [&str; 11] = ["// @sha256 abc", "//", "// x", "", "x", " // @sha256 q", "// @sha256 ", "//@sha256 z", "/ / @sha256 w", "// @sha256 d\u{e9} f ", "// a // @sha256 mid"];
         let depth = if thorough() { 5 } else { 4 };
         let mut n = 0usize;
         let mut idx = vec![0usize; 0];
@@ -837,7 +842,7 @@ mod __vx_leafcheck {
     }
 
     const PAYLOADS: &[&str] = &["( )", "u8", "crate :: P0", "std :: string :: String", "Vec < u8 >", "Vec < ( ) >", "Map < a :: K , Vec < Option < b :: V > > >", "Box < Box < Box < T > > >", "Result < ( ) , E >"];
-    const ATTRS: &[&str] = &["#[a]", "#[derive(Clone,~Debug)]", "#[doc~=~\"\u{e9}~\u{2200}~(~[~{~}~]~)~//~x\"]", "#[cfg_attr(all(),~allow(unused))]", "#[x~=~\"#[a]\"]", "#[~spaced~~out~]", "#[k({[({[x]})]})]", "#[serde(rename~=~\"$X~start~_\")]"];
+    const ATTRS: &[&str] = &["#[a]", "#[derive(Clone,~Debug)]", "#[doc~=~\"\u{e9}~\u{2200}~(~[~{~}~]~)~//~x\"]", "#[cfg_attr(all(),~allow(unused))]", "#[x~=~\"#[a]\"]", "#[~spaced~~out~]", "#[k({[({[x]})]})]", "#[serde(rename~=~\"$X~start~_\")]", "#[\u{65e5}]", "#[k(\u{2200})\u{1f600}]", "#[\u{1f600}{\u{e9}}\u{2200}[\u{65e5}]]"];
 
     fn types_family() -> Vec<Vec<String>> {
         let mut fam: Vec<String> = VALID.iter().map(|s| s.to_string()).collect();
@@ -857,6 +862,9 @@ mod __vx_leafcheck {
             fam.push(format!("start S {} struct S ( E $X ) {} {} enum E {{ V W ( $X ) }} {} {} {} terminal T {{ $X : ( ) }}", a(0), a(1), a(2), a(3), a(4), a(5)));
             fam.push(format!("start S struct S {{ e : E }} enum E {{ V }} struct U {} {} {} struct W ( $X ) terminal T {{ $X : u8 }}", a(0), a(0), a(1)));
         }
+        // attributes on declarations without content, terminals whose names differ only in case
+        fam.push("start S struct S ( $X ) #[a] #[b(c)] enum E { } #[c] struct U #[d] terminal T { $X : ( ) }".to_string());
+        fam.push("start S struct S ( $AB $Ab $ABc ) struct N { p : $Ab q : $AB r : $ABc } terminal T { $Ab : u8 $AB : ( ) $ABc : Vec < u8 > }".to_string());
         fam.iter().map(|c| tokens(c)).collect()
     }
 
@@ -892,8 +900,9 @@ mod __vx_leafcheck {
 
     fn emitted_check(which: &str) {
         let mut n = 0usize;
-        for toks in types_family() {
-            let text = render(&toks, 1).0;
+        let layouts: &[usize] = if which == "attributes" { &[1, 6] } else { &[1] };     // attributes also where nothing separates them from their neighbours
+        for (toks, layout) in types_family().into_iter().flat_map(|t| layouts.iter().map(move |l| (t.clone(), *l))) {
+            let text = render(&toks, layout).0;
             let leaf = format!("generate(emitted-{})", which.replace(' ', "-"));
             let out = match run(&text) {
                 Some(Ok(out)) => out,
@@ -926,7 +935,7 @@ mod __vx_leafcheck {
                         _ => None,
                     };
                     if let Some(simpler) = simpler {
-                        if simpler != toks && matches!(run(&render(&simpler, 1).0), Some(Ok(_))) {
+                        if simpler != toks && matches!(run(&render(&simpler, layout).0), Some(Ok(_))) {
                             let got = match rejected { Some(Err(e)) => format!("Err({:?})", e).chars().take(160).collect::<String>(), _ => "panic".to_string() };
                             println!("LEAFCHECK-FAIL leaf={} input={} got={} want=accepted and reproduced: the same file {} is accepted", leaf, brief(&text), got,
                                 if which == "attributes" { "without its attributes" } else { "with `()` for every payload type" });
@@ -1344,18 +1353,18 @@ mod __vx_leafcheck {
     fn has_conflict(g: &Gram, states: &[BTreeSet<It>]) -> bool { demands(g, states).iter().any(|m| m.values().any(|a| a.len() > 1)) }
 
     const TEXTBOOK: &[&str] = &[
-        "start S enum S { A ( $A E $C ) B ( $A F $D ) C ( $B F $C ) D ( $B E $D ) } struct E ( $E ) struct F ( $E ) terminal T { $A : ( ) $B : ( ) $C : ( ) $D : ( ) $E : ( ) }",
+        "start S enum S { A ( $A E $C ) B ( $A F $D ) C ( $B F $C ) D ( $B E $D ) } struct E ( $Z ) struct F ( $Z ) terminal T { $A : ( ) $B : ( ) $C : ( ) $D : ( ) $Z : ( ) }",
         "start S enum S { A ( L $Eq R ) B ( R ) } enum L { C ( $Star R ) D ( $Id ) } struct R ( L ) terminal T { $Eq : ( ) $Star : ( ) $Id : ( ) }",
         "start S enum S { A ( $A X $D ) B ( $B X $E ) C ( $A Y $E ) D ( $B Y $D ) } struct X ( $C ) struct Y ( $C ) terminal T { $A : ( ) $B : ( ) $C : ( ) $D : ( ) $E : ( ) }",
         "start St enum St { If ( $If St ) IfElse ( $If St $Else St ) Other ( $O ) } terminal T { $If : ( ) $Else : ( ) $O : ( ) }",
         "start E enum E { Add ( E $Plus T ) Term ( T ) } enum T { Mul ( T $Star F ) Fac ( F ) } enum F { Par ( $L E $R ) Num ( $N ) } terminal Tok { $Plus : ( ) $Star : ( ) $L : ( ) $R : ( ) $N : ( ) }",
-        "start S struct S ( A B C ) enum A { N0 Y0 ( $A ) } enum B { N1 Y1 ( $B ) } enum C { N2 Y2 ( $C ) } terminal T { $A : ( ) $B : ( ) $C : ( ) }",
-        "start S struct S ( A B A ) enum A { N0 Y0 ( $A ) } enum B { N1 Y1 ( $B ) } terminal T { $A : ( ) $B : ( ) }",
+        "start S struct S ( A B C ) enum A { N0 Y0 ( $X ) } enum B { N1 Y1 ( $Y ) } enum C { N2 Y2 ( $Z ) } terminal T { $X : ( ) $Y : ( ) $Z : ( ) }",
+        "start S struct S ( A B A ) enum A { N0 Y0 ( $X ) } enum B { N1 Y1 ( $Y ) } terminal T { $X : ( ) $Y : ( ) }",
         "start S enum S { A ( S $A ) B ( $A S ) C } terminal T { $A : ( ) }",
         "start S enum S { P ( $P X ) Q ( $Q X ) R ( $Q Y ) } struct X ( $A $B ) struct Y ( $A $C ) terminal T { $P : ( ) $Q : ( ) $A : ( ) $B : ( ) $C : ( ) }",
         "start S struct S { first : B rest : Wrap } struct B ( $Bee ) struct Wrap { inner : Opt } enum Opt { None0 Some0 ( $Cee ) } terminal T { $Bee : ( ) $Cee : ( ) }",
         "start S struct S { a : A b : B _ : $X c : C } struct A { _ : O p : O } struct B ( O _ : O ) struct C { q : O } enum O { N Y { y : $Y } } terminal T { $X : ( ) $Y : ( ) }",
-        "start L enum L { One ( I ) More ( L $Comma I ) } enum I { Id ( $Id ) Call ( $Id $L Args $R ) } enum Args { None0 Some0 ( L ) } terminal T { $Comma : ( ) $Id : ( ) $L : ( ) $R : ( ) }",
+        "start L enum L { One ( I ) More ( L $Comma I ) } enum I { Id ( $Id ) Call ( $Id $Lp Args $Rp ) } enum Args { None0 Some0 ( L ) } terminal T { $Comma : ( ) $Id : ( ) $Lp : ( ) $Rp : ( ) }",
     ];
     fn lalr_family() -> Vec<Vec<String>> {
         let du: [String; 12] = DEFAULT_UPPER.map(|s| s.to_string());
